@@ -1,10 +1,16 @@
 """Expose validators to use in the library."""
 import logging
+import threading
 
 from awesomeversion import AwesomeVersion, AwesomeVersionException
 import voluptuous as vol
 
 _LOGGER = logging.getLogger(__name__)
+
+# The validators in the const tables are shared by every schema that is built
+# from them, and voluptuous compiles a validator in place. Build and run the
+# schemas from one thread at a time.
+SCHEMA_LOCK = threading.RLock()
 
 percent_int = vol.All(vol.Coerce(int), vol.Range(min=0, max=100))
 
